@@ -960,10 +960,13 @@ def convolve_dim(f, convolve_def):
         p2p.addVariable(f, outf, vark, data=not lconvolve)
         if lconvolve:
             axisi = list(var.dimensions).index(dimkey)
-            values = np.apply_along_axis(func1d=lambda x_: np.convolve(
-                weights, x_, mode=mode), axis=axisi, arr=var[:])
             if isinstance(var[:], np.ma.MaskedArray):
+                values = np.ma.apply_along_axis(lambda x_: np.ma.convolve(
+                    weights, x_, mode=mode), axisi, var[:])
                 values = np.ma.masked_invalid(values)
+            else:
+                values = np.apply_along_axis(func1d=lambda x_: np.convolve(
+                    weights, x_, mode=mode), axis=axisi, arr=var[:])
 
             outf.variables[vark][:] = values
     return outf
